@@ -20,12 +20,17 @@ class Guard(Ptr):
         self.live = True
 
 
-def release(st, g):
+def release(st, g, _depth=0):
     if isinstance(g, Guard) and g.live:
         g.live = False
         held = getattr(g.lock, 'held', [])
         if g.mode in held:
             held.remove(g.mode)
+    elif isinstance(g, (Enum, Struct)) and _depth < 3:
+        # a guard kept inside an Option / tuple / small struct is released when its owner is dropped
+        for v in list(getattr(g, 'fields', {}).values()):
+            if isinstance(v, (Guard, Enum, Struct)):
+                release(st, v, _depth + 1)
 
 
 def _lock(c, mode):
